@@ -61,7 +61,10 @@ def _run(prop, tier, replay, t0):
     vlib.replay_case = patient_replay_case
     try:
         if replay:
-            st, o = vlib.replay_case(binary, os.path.abspath(replay), wd, known="", tag="user", timeout=3600, extra_env=extra_env)
+            # the replay file of a known finding is replayed with nothing excluded; any other file is judged like the search
+            # judges it (reports that match a listed known finding do not count)
+            ids = "" if os.path.basename(replay).startswith("known_") else ",".join(f.id for f in vlib.known_findings(prop))
+            st, o = vlib.replay_case(binary, os.path.abspath(replay), wd, known=ids, tag="user", timeout=3600, extra_env=extra_env)
             sys.stdout.write(o[-6000:])
             if st != "pass":
                 print("VIOLATION property=%s replay=%s" % (prop, os.path.abspath(replay)))
